@@ -284,8 +284,12 @@ def _dict_keys(ctx, world):
         ir = world.ir(e)
         res = strip_seq(ir.result) if ir and ir.ok else None
         ok = False
+        c = None
         if res is not None and res.op == "call" and len(res.args) == 1 and res.args[0].op == "comp":
             c = res.args[0]
+        elif res is not None and res.op == "call" and res.fn.op == "ref" and res.fn.ref.qual == "autograd.builtins.make_sequence" and len(res.args) == 2 and res.args[1].op == "star" and res.args[1].x.op == "comp":
+            c = res.args[1].x  # the traced list constructor written out: make_sequence(list_, *[...])
+        if c is not None and not c.conds:
             el = c.elt
             ok = c.src.op == "arg" and c.src.index == 0 and el.op == "sub" and el.obj.op == "sym" and el.obj.get("role") == "g" and el.idx.op == "iterelem" and el.idx.src is c.src
         inst = construct_of(e)
